@@ -599,6 +599,15 @@ func exhaustiveC03(thorough bool, emit func(C03Case) bool) {
 	}
 	// multi-byte tokens (BOM, fmt verbs, gzip magic, NEL/NBSP) at the start and inside of every
 	// text field of the FIRST record of a file without headers, and of a later record
+	// a delimiter next to every other byte, inside and across machine words of Rname and a Z tag
+	if !bytePairFields("@:*=\"", "\t\r\n", func(v gen.B) bool {
+		r := baseSamRec
+		r.Rname = v
+		r.Tags = []SamTag{{Name: "NM", Type: "i", I: 2}, {Name: "ZZ", Type: "Z", Z: v}}
+		return emit(C03Case{Kind: "file", Recs: []SamRec{r, baseSamRec}})
+	}) {
+		return
+	}
 	// twin records: fields of equal length that differ in one byte, in one stream
 	if !twinFields(func(a, b gen.B) bool {
 		mk := func(q, rn, sq, ql, z gen.B) SamRec {
